@@ -90,7 +90,7 @@ def show(v, depth=6):
 
 class Store:
     """a write through a pointer: *root.path := value"""
-    __slots__ = ('root', 'path', 'value', 'point', 'span', 'via_call')
+    __slots__ = ('root', 'path', 'value', 'point', 'span', 'via_call', 'owner')
 
     def __init__(self, root, path, value, point, span, via_call=False):
         self.root = root
@@ -99,6 +99,7 @@ class Store:
         self.point = point
         self.span = span
         self.via_call = via_call
+        self.owner = None
 
     def fields(self):
         return tuple(p for p in self.path if p != '*')
@@ -350,7 +351,14 @@ class Body:
         path = self._path(pl['p'], cur, pt)
         if not path:
             return base
-        return self.mk_load(base, path, pl.get('ty'), pt, span)
+        v = self.mk_load(base, path, pl.get('ty'), pt, span)
+        if v.kind == 'load':
+            # owner ADT of the last field projected (for flow-insensitive record-field summaries)
+            for e in reversed(pl['p']):
+                if isinstance(e, list) and e[0] == 'field':
+                    v.extra.setdefault('last_owner', e[3])
+                    break
+        return v
 
     def _path(self, proj, cur, pt):
         out = []
@@ -377,6 +385,8 @@ class Body:
                 return root
             if root.kind == 'ref' and path[0] == '*':
                 root, path = root.args[0], root.args[1] + path[1:]
+                if not path:
+                    return root
                 continue
             if root.kind == 'load':
                 if path[0] != '*' and root.point is not None:
@@ -429,6 +439,10 @@ class Body:
         if k == 'const':
             if o.get('fn'):
                 return self.new('fn', (o['fn'],), ty=o['ty'], point=pt, span=span)
+            if o.get('promoted'):
+                pr = o['promoted']
+                inner = self.new('const', (pr['val'], pr.get('def'), pr['text']), ty=pr['ty'], point=pt, span=span)
+                return self.new('ref', (inner, ()), ty=o['ty'], point=pt, span=span, extra={'mut': False, 'promoted': True})
             return self.new('const', (o['val'], o.get('def'), o['text']), ty=o['ty'], point=pt, span=span)
         return self.new('const', (None, None, k), point=pt, span=span)
 
@@ -475,7 +489,12 @@ class Body:
                 root, full = root.args[0], root.args[1] + path[1:]
             elif root.kind == 'load':
                 root, full = root.args[0], root.args[1] + path
-            self.stores.append(Store(root, full, v, pt, span))
+            st = Store(root, full, v, pt, span)
+            for e in reversed(proj):
+                if isinstance(e, list) and e[0] == 'field':
+                    st.owner = e[3]
+                    break
+            self.stores.append(st)
             self.stmt_vals[pt] = v
             return
         # partial write into a local
